@@ -54,7 +54,7 @@ def main():
     print("[mutant_check] %s: using sandbox %s" % (name, alt), flush=True)
     repo = os.path.join(alt, "repo")
     os.makedirs(alt, exist_ok=True)
-    for d in ("evidence", "replays"):
+    for d in ("evidence", "replays", os.path.join("build", "cases")):
         shutil.rmtree(os.path.join(alt, d), ignore_errors=True)
     head = run(["git", "-C", "/repo", "rev-parse", "HEAD"]).stdout.strip()
     if not os.path.isdir(repo):
